@@ -16,6 +16,7 @@ import (
 	"verif/harness/internal/attrquery"
 	"verif/harness/internal/c09"
 	"verif/harness/internal/c10"
+	"verif/harness/internal/c11"
 	"verif/harness/internal/c14"
 	"verif/harness/internal/c15"
 	"verif/harness/internal/c16"
@@ -53,6 +54,8 @@ func main() {
 		err = c10.Run(*out, *tier, *seed)
 	case "C01", "C03":
 		err = callback.Run(prop, *out, *tier, *seed)
+	case "C11":
+		err = c11.Run(*out, *tier, *seed)
 	case "C12":
 		err = attrquery.Run(*out, *tier, *seed)
 	case "C13":
